@@ -72,6 +72,29 @@ def run(ctx: Ctx):
             ctx.violation("Taus.tau_exit_prob", "mutates-input", "input array modified", {"version": v})
         import tautie
         tautie.compare_exit_prob(ctx, fresh, raw, np.roll(b, 8), np.roll(le, 8), np.roll(P, 8))   # the 8 axis-end cases first
+        # ---- "for all event batches": an event's exit probability does not depend on which classes of angle the rest of the batch
+        # holds - sub-batches of only below-table angles, below + above, one below-table event, the exact-zero angle alone, only
+        # above-table angles, against the values the same events got in the mixed batch (held against the raw table below)
+        low_i = np.nonzero(b < bmin)[0][:6]
+        high_i = np.nonzero(b > bmax)[0][:4]
+        zero_i = np.nonzero(b == 0.0)[0][:1]
+        for nm_, idx_ in (("below-table angles only", low_i), ("below-table and above-table angles", np.concatenate([low_i, high_i])),
+                          ("one below-table event", low_i[-1:]), ("the exact-zero angle alone", zero_i), ("above-table angles only", high_i),
+                          ("one in-table event", np.nonzero((b >= bmin) & (b <= bmax))[0][:1])):
+            if len(idx_) == 0:
+                continue
+            ctx.count("sub_batches_by_angle_class")
+            try:
+                Ps_ = np.asarray(make_taus(v).tau_exit_prob(b[idx_].copy(), le[idx_].copy()), dtype=np.float64)
+                bad_ = None if Ps_.shape == (len(idx_),) and np.allclose(Ps_, P[idx_], rtol=1e-12, atol=0) else "differs"
+            except Exception as e:  # noqa: BLE001
+                Ps_, bad_ = None, f"raises {type(e).__name__}: {str(e)[:80]}"
+            if bad_:
+                ctx.violation("Taus.tau_exit_prob", "value-depends-on-the-rest-of-the-batch",
+                              f"a batch of {nm_} {bad_ if bad_ != 'differs' else 'gives an event another exit probability than the same event gets in a batch that also holds in-table angles'}",
+                              {"version": v, "sub_batch": nm_, "betas": [float(x) for x in b[idx_]], "log_e_nu": [float(x) for x in le[idx_]],
+                               "pexit_in_sub_batch": (None if Ps_ is None else [float(x) for x in np.ravel(Ps_)]), "pexit_in_mixed_batch": [float(x) for x in P[idx_]]})
+                break
         out = run_driver_sharded([f"pexit {v} 0 {f2h(b[i])} {f2h(le[i])}" for i in range(N)])
         for i, o in enumerate(out):
             case = {"version": v, "beta": float(b[i]), "log_e_nu": float(le[i]), "pexit": float(P[i])}
